@@ -23,6 +23,7 @@
 //! * [`gen_rich_record`]`(&mut Rng, &HeaderDesc, &RecOpts)` / [`minimal_record`]`(&HeaderDesc, at, kind)` — the
 //!   two ends of the shape range, for "rich record followed by minimal record" adjacency in files read
 //!   through one reused buffer;
+//! * [`gt_separator_matrix`]`(&HeaderDesc, at)` — ploidy 3/4 genotypes with every order of `/` `|` separators;
 //! * [`features`]`(&RecDesc, &HeaderDesc) -> Vec<String>` — data-free shape tokens (coverage /
 //!   distinct-case fingerprints).
 //!
@@ -49,7 +50,7 @@ pub mod model;
 pub mod text;
 
 pub use conv::{header_desc_of, rec_desc_of_buf, rec_desc_of_record, series_of_record, to_noodles_header, to_record_buf};
-pub use r#gen::{HeaderOpts, IdxMode, Model, RecOpts, assign_idx, coordinate_sorted_set, features, format_combos, gen_header, gen_record, gen_record_at, gen_rich_record, info_combos, minimal_record};
+pub use r#gen::{HeaderOpts, IdxMode, Model, RecOpts, assign_idx, coordinate_sorted_set, features, format_combos, gen_header, gen_record, gen_record_at, gen_rich_record, gt_separator_matrix, info_combos, minimal_record};
 pub use model::{AltDef, ContigDef, FieldDef, FieldDiff, FilterDef, GtAllele, HeaderDesc, Num, OtherLine, RecDesc, Tol, Ty, Val, classify, diff_headers, diff_records, opt_val_eq, show_val, val_eq};
 pub use text::{gt_text, header_from_text, implied_first_phasing, parse_gt, percent_decode, percent_encode, rec_from_line, reserved_def, span, to_vcf_header, to_vcf_line};
 
